@@ -4,6 +4,7 @@ import (
 	"fmt"
 	"math/rand/v2"
 	"net/http"
+	"os"
 	"strings"
 	"sync"
 	"testing"
@@ -404,8 +405,12 @@ func TestC01(t *testing.T) {
 		"Ground truth of what ran comes from the probe/recording-wrapper trace. A case is non-trivial when at least one step deviates from ok/true.")
 	r.Assume("probe error handlers honour the error-handler contract (register the cause as pipeline error when they return nil)",
 		"Envoy CheckRequest mapping follows the repository's tests (lower-case header keys, path and query in `path`)")
+	r.Rule("the verbose variant additionally runs with tracing enabled (SDK tracer provider, recording spans, no exporter)")
 	nRules := r.Pick(60, 400)
 	nRandomPlans := r.Pick(6, 40)
+	// the last variant runs with OpenTelemetry tracing switched on as a default deployment has it (a real SDK tracer provider, so
+	// that every request carries a recording span), only without a span exporter
+	os.Setenv("OTEL_TRACES_EXPORTER", "none")
 
 	for _, variant := range []struct {
 		name     string
@@ -497,6 +502,7 @@ func TestC01(t *testing.T) {
 				c.Serve.Decision.Respond.With.Accepted.Code = variant.accepted
 				// verbose error responses negotiate a body type with the client's Accept header
 				c.Serve.Decision.Respond.Verbose = variant.verbose
+				c.Tracing.Enabled = variant.verbose
 				c.Serve.Proxy.Respond.Verbose = variant.verbose
 			},
 			RuleSets: func(up string) []*rconfig.RuleSet {
